@@ -24,6 +24,12 @@ func VerifHarness_C08_Merge() {
 		{Command: c08Atom("p1"), Description: "zorgblat quota", Keywords: []string{"mine"}},
 		{Command: c08Atom("p2"), Description: "other note", Keywords: nil},
 	}
+	switch verifIntRange("p2kind", 0, 2) {
+	case 1:
+		persCmds[1].Command = "" // `wtf save "" "note"` is a legal (if odd) notebook entry
+	case 2:
+		persCmds[1].Command = "   "
+	}
 	npers := verifIntRange("notebookEntries", 0, 2)
 	persCmds = persCmds[:npers]
 	verifFSPutDoc(mainPath, "yaml", mainCmds)
